@@ -12,7 +12,15 @@ import sys, os, re, json, subprocess, glob, time
 ROOT = os.path.dirname(os.path.dirname(os.path.abspath(__file__)))
 OUT = os.environ.get("SEEDED_OUT", os.path.join(ROOT, "seeded"))
 env = dict(os.environ, GOFLAGS="-mod=mod", GOPROXY="off", GOSUMDB="off")
-only = sys.argv[1:]
+only, extra = [], {}
+for a in sys.argv[1:]:
+    # "C08-m7+C06+C15" restricts the sweep to that id and adds checks to its list;
+    # "+C08-m7+C06" only adds the checks (the sweep stays complete)
+    keep = not a.startswith("+")
+    parts = a.lstrip("+").split("+")
+    if keep:
+        only.append(parts[0])
+    extra.setdefault(parts[0], []).extend(parts[1:])
 
 def sh(cmd, cwd, timeout=3600):
     r = subprocess.run(cmd, cwd=cwd, env=env, shell=True, capture_output=True, text=True, timeout=timeout)
@@ -32,6 +40,9 @@ for d in sorted(glob.glob(os.path.join(OUT, "*"))):
     checks = list(meta.get("checks", {}).keys())
     if meta["property"] not in checks:
         checks.insert(0, meta["property"])
+    for pre, ex in extra.items():
+        if mid.startswith(pre):
+            checks += [c for c in ex if c not in checks]
     rc, out = sh("git -C /repo apply " + pp, "/repo")
     if rc != 0:
         print(mid, "patch does not apply any more:", out.strip()[:200])
